@@ -211,6 +211,7 @@ class _Listener:
         if not self.pending:
             raise WouldBlock("accept with nothing pending")
         srv = self.pending.pop(0)
+        srv.accepted = True
         self.net.ev("accept", srv)
         return srv, ("127.0.0.1", 50000 + self.net.naccepted())
 
@@ -373,7 +374,10 @@ class ManagerSelect:
             return [], list(w), []
         want = net.cmd.get("writable") if net.cmd else None
         out = [s for s in w if s is not net.listener and (want is None or s.name in want)]
-        net.ev("wsel", None, [s.name for s in out])
+        # what is recorded is which of ALL accepted, open connections can take data at this moment (the environment's state),
+        # not merely the part of it the manager chose to ask about
+        true_w = [e.name for e in net.ends.values() if getattr(e, "accepted", False) and not e.closed and (want is None or e.name in want)]
+        net.ev("wsel", None, sorted(set(true_w) | {s.name for s in out}))
         return [], out, []
 
 
